@@ -35,6 +35,8 @@ def ctx_desc(ctx: dict) -> str:
             return "<number>"
         if isinstance(v, Unk):
             return f"<{v.typ or 'value'}>"
+        if isinstance(v, tuple):
+            return f"<{len(v)} extra>"
         return type(v).__name__
     return ", ".join(f"{k}={d(v)}" for k, v in ctx.items())
 
